@@ -72,6 +72,9 @@ def run(seed=0, rounds=6):
             for da in INTS + FLOATS:
                 for _ in range(rounds):
                     a = _rand(rng, da); x = np.array([a], dtype=da)
+                    if np.dtype(da).kind == 'f' and a != 0 and float(a) in (0.25, 0.5, 1.0, 2.0, 4.0, -2.0, -0.5, 8.0, 16.0):
+                        exp = np.reciprocal(x); got = np.reciprocal(_const(a, da)); n += 1
+                        if got.dtype != exp.dtype or _val(got) != fractions.Fraction(exp[0].item()): problems.append(f'reciprocal({da}={a}): {_val(got)} != numpy {exp[0]}')
                     for nm, f in (('abs', np.abs), ('negative', np.negative)):
                         if np.dtype(da).kind == 'u' and nm == 'abs': continue
                         exp = f(x); got = f(_const(a, da)); n += 1
@@ -82,6 +85,12 @@ def run(seed=0, rounds=6):
                     except Exception: continue
                     got = np.clip(_const(a, da), lo, hi); n += 1
                     if got.dtype != exp.dtype or _val(got) != fractions.Fraction(exp[0].item()): problems.append(f'clip({da}={a},{lo},{hi}): {got.dtype} {_val(got)} != numpy {exp.dtype} {exp[0]}')
+            for da in FLOATS:
+                for a in (0.25, 0.5, 1.0, 2.0, -4.0, 8.0):
+                    exp = np.reciprocal(np.array([a], dtype=da)); got = np.reciprocal(_const(a, da)); n += 1
+                    # a symbolic divisor is the uninterpreted DIV(x, y) with the recorded defining fact: the numpy value must be the only one the facts allow
+                    sv = z3.Solver(); sv.add(*[_fold(f) for f in symnp.ctx().defs[-3:]]); sv.add(_fold(got.term) != symnp._rv(exp[0].item()))
+                    if got.dtype != exp.dtype or sv.check() != z3.unsat: problems.append(f'reciprocal({da}={a}): the defining facts do not force numpy\'s value {exp[0]}')
             # float -> int cast: exact whenever the side obligation (integral, in range) holds
             for db in INTS:
                 info = np.iinfo(db)
